@@ -25,7 +25,7 @@ CONFIG = dict(
     min_nontrivial={"quick": 2000, "thorough": 50000},
     nshards={"quick": 16, "thorough": 16},
     timeout={"quick": 900, "thorough": 7200},
-    required_counters=("value_checks", "plain_checks", "plain_delivery_checks"),
+    required_counters=("value_checks", "plain_checks", "plain_delivery_checks", "interrupted_traces_resumed"),
 )
 
 CONTAINER_TAGS = ("list", "tuple", "dict", "set", "frozenset", "obj")
@@ -299,6 +299,61 @@ def plain_deliveries(ctx, label, first, second):
         os.unlink(path)
 
 
+def interrupted_trace(ctx, label, data, value):
+    """Fault enumeration on the tracer's output: the k-th write to stdout fails (closed pipe), the caller catches that
+    and lets the same interpreter finish - the program it then gets still evaluates to the pickled value."""
+    import contextlib
+    from fickling import tracing
+    f = de.fickle()
+    agg = ctx.agg
+
+    class Failing:
+        def __init__(self, k):
+            self.k, self.n = k, 0
+
+        def write(self, s):
+            self.n += 1
+            if self.n == self.k:
+                raise BrokenPipeError("vp: stdout closed")
+            return len(s)
+
+        def flush(self):
+            pass
+    probe = Failing(0)
+    try:
+        with contextlib.redirect_stdout(probe):
+            tracing.Trace(f.Interpreter(f.Pickled.load(data))).run()
+    except Exception:
+        return
+    total = probe.n
+    for k in range(1, total + 1, max(1, total // 12)):
+        interp = f.Interpreter(f.Pickled.load(data))
+        out = Failing(k)
+        try:
+            with contextlib.redirect_stdout(out):
+                tracing.Trace(interp).run()
+            continue                      # the k-th write never happened
+        except BrokenPipeError:
+            pass
+        except Exception:
+            continue
+        try:
+            got = _eval_plain(ast.unparse(interp.to_ast()))
+        except RecursionError:
+            return
+        except BaseException as e:
+            agg.violation("plain-value-differs:after-interrupted-trace",
+                          f"tracing interrupted at output write {k} of {total}, interpreter resumed: {type(e).__name__}: {str(e)[:100]}",
+                          diffrun.witness(label, data, None, value=repr(value)[:200], write=k))
+            return
+        agg.count("interrupted_traces_resumed")
+        if not same(value, got):
+            agg.violation("plain-value-differs:after-interrupted-trace",
+                          f"tracing interrupted at output write {k} of {total}, interpreter resumed: the program evaluates to "
+                          f"{got!r}"[:300], diffrun.witness(label, data, None, value=repr(value)[:200], write=k))
+            return
+
+
 def run_shard(ctx):
     diffrun.run(ctx, oracle, deep_need={"reduce", "obj", "inst", "newobj", "newobj_ex", "build", "binpersid"})
     n = {"quick": 1200, "thorough": 25000}[ctx.tier]
@@ -311,6 +366,8 @@ def run_shard(ctx):
                 n_ in f.OPCODES_BY_NAME and f.OPCODES_BY_NAME[n_].run is not f.Opcode.run for n_ in names):
             continue
         i += 1
+        if len(data) < 400 and i % 5 == 0:
+            interrupted_trace(ctx, "plain-trace-fault-" + label, data, v)
         if prev is not None and i % 3 == 0:
             plain_deliveries(ctx, "plain-delivery-" + label, prev, (data, v))
         prev = (data, v)
